@@ -251,7 +251,7 @@ def execute(prop, tier, seed):
                 continue
             roots[name] = root
         jobs = [j for j in jobs if j.get("tree", "core") in roots]
-    ntasks = 0
+    log(f"[t+{time.time()-run.t0:.1f}s] roots ready")
     tasks = []
     for j in jobs:
         t = dict(j)
@@ -289,6 +289,7 @@ def execute(prop, tier, seed):
                 pending = nxt
                 if pending:
                     time.sleep(0.02)
+    log(f"[t+{time.time()-run.t0:.1f}s] {len(results)} job results")
     # ---- aggregate per job
     agg = {}
     for r in results:
@@ -329,7 +330,7 @@ def execute(prop, tier, seed):
     for name, a in agg.items():
         t = by_name[name]
         for v in a["violations"]:
-            per_root.setdefault(t["root"], []).append(("violation", name, v, {"fn": t["fn"], "args": t.get("args", []), "inputs": v["inputs"]}))
+            per_root.setdefault(t["root"], []).append(("violation", name, v, {"fn": t["fn"], "args": t.get("args", []), "inputs": v["inputs"], "tree": t.get("tree")}))
         for mdl, c in zip(a["models"], a["concrete"]):
             per_root.setdefault(t["root"], []).append(("model", name, (mdl, c), {"fn": t["fn"], "args": t.get("args", []), "inputs": mdl}))
     witnesses = {}
@@ -373,6 +374,7 @@ def execute(prop, tier, seed):
                                 f"{nat.get('label', '')} {nat.get('message', '')} interp-concrete={conc.get('status')} {conc.get('label', '')} {conc.get('note', '')}"
                                 + ("" if nat.get("observations") == conc.get("observations") else
                                    f" obs-native={json.dumps(nat.get('observations'))[:300]} obs-interp={json.dumps(conc.get('observations'))[:300]}"))
+    log(f"[t+{time.time()-run.t0:.1f}s] native replays done ({run.native_runs})")
     # ---- vacuity: every job must reach its end on at least one feasible path, and every expected label
     for name, a in agg.items():
         t = by_name[name]
@@ -391,12 +393,15 @@ def execute(prop, tier, seed):
         divisors.update(a["fp_uses"])
     fp_range = None
     for t in tasks:
-        fp_range = tuple(t.get("fp_range", (-(1 << 20), 1 << 20)))
-    for d in sorted(divisors):
-        ok, who, secs = prove_fp_lemma(d, fp_range[0], fp_range[1])
-        run.fp.append({"divisor": d, "range": list(fp_range), "proved": ok, "solver": who, "seconds": secs})
-        if not ok:
-            run.problem(f"float-division lemma for divisor {d} over {fp_range} not proved")
+        fp_range = tuple(t.get("fp_range", (-4096, 4096)))
+    if divisors:
+        ctx = mp.get_context("fork")
+        with ctx.Pool(processes=min(len(divisors), 16)) as pool:
+            outs = pool.starmap(prove_fp_lemma, [(d, fp_range[0], fp_range[1]) for d in sorted(divisors)])
+        for d, (ok, who, secs) in zip(sorted(divisors), outs):
+            run.fp.append({"divisor": d, "range": list(fp_range), "proved": ok, "solver": who, "seconds": secs})
+            if not ok:
+                run.problem(f"float-division lemma for divisor {d} over {fp_range} not proved")
     # ---- cleanup scratch roots
     for name, root in roots.items():
         if name != "src":
@@ -425,6 +430,10 @@ def write_evidence(prop, run, tier, seed):
     used = set()
     for a in agg.values():
         used.update(a["assumptions"])
+    for u in list(used):
+        if u.startswith("range-cap:"):
+            used.discard(u)
+            assumptions.append("loop counts decoded from symbolic input are explored up to %s; larger decoded counts are outside the claim" % u.split(":")[1])
     stubs = {"cp1252-table": "windows-1252 'replace' codec modelled as a z3 table function regenerated from the host codec and compared with the repository interpreter's",
              "enum-model": "IntEnum under ProtocolEnumMeta modelled as an integer tagged with its class (C14 is outside this technique)",
              "memoryview-as-copy": "memoryview modelled as an immutable copy of the bytes",
@@ -498,7 +507,7 @@ def write_replay(prop, name, v, req, tier):
     os.makedirs(os.path.join(VERIF, "replays"), exist_ok=True)
     doc = {"property": prop.ID, "harness": prop.HARNESS, "mode": getattr(prop, "MODE", "src"), "job": name, "fn": req["fn"],
            "args": req["args"], "inputs": v["inputs"], "expected": {"status": v["kind"], "label": v["label"]}, "tier": tier,
-           "tree": None}
+           "tree": req.get("tree")}
     h = hashlib.sha256(json.dumps(doc, sort_keys=True).encode()).hexdigest()[:12]
     path = os.path.join(VERIF, "replays", f"{prop.ID}-{h}.json")
     with open(path, "w") as f:
@@ -511,10 +520,16 @@ def replay(prop, path):
     from . import scratch
     doc = json.load(open(path))
     repo = scratch.repo_root()
+    if doc.get("fn") == "<generator>":
+        xml = dict(prop.trees(doc.get("tier", "quick"))).get(doc["args"][0])
+        root, ok, msg = scratch.build_tree(xml, repo)
+        print(json.dumps({"expected": doc["expected"], "generator_ok": ok, "message": msg.strip()[-300:]}))
+        print("NOT-REPRODUCED" if ok else "REPRODUCED")
+        return 0 if ok else 1
     if doc.get("mode", "src") == "src":
         root = os.path.join(repo, "src")
     else:
-        tree = doc.get("tree_name") or "core"
+        tree = doc.get("tree") or "core"
         xml = dict(prop.trees(doc.get("tier", "quick"))).get(tree)
         root, ok, msg = scratch.build_tree(xml, repo)
         if not ok:
